@@ -11,7 +11,7 @@ RULE = ("Hypothesis-generated annotated networks: (a) clean motif networks; (b) 
         "topology names on the edges and freely generated vertex annotations (>= 1 where the vertex has an edge of that "
         "topology), name lists possibly containing a topology without edges; r in 1..4 repeated get_ejks() calls on one "
         "extractor; plus the overall-degree variant on the bare graph. Oracle: Fraction extractor written from the "
-        "definition (1e-12). Non-trivial = some topology with >= 2 excess classes and r >= 2; distinct = canonical JSON")
+        "definition (1e-12 plus 2e-16 per accumulated term). Non-trivial = some topology with >= 2 excess classes and r >= 2; distinct = canonical JSON")
 ASSUMPTIONS = ["simple graphs (no self-loops / multi-edges), as the quantifier states"]
 BUDGET = {"quick": (16, 300), "thorough": (16, 15000)}
 
@@ -48,17 +48,46 @@ def free_network(draw, tier):
             "weights": draw(st.booleans())}
 
 
+def enumerated(tier, seed):
+    """one large network (more than 10^5 edges of one topology): anything that scans edges with an early exit or a
+    relative tolerance has its failure region here"""
+    return [{"big": {"ring": 120000, "triangles": 1000}, "r": 1}]
+
+
+ENUM_CHUNK = 1
+
+
 def strategy(tier):
     r = st.integers(1, 4)
-    a = st.tuples(NC.clean_network(maxN=14 if tier == "quick" else 40, minN=4, max_motifs=12 if tier == "quick" else 40), r).map(
-        lambda t: {"net": t[0], "r": t[1]})
-    b = st.tuples(free_network(tier), r).map(lambda t: {"net": t[0], "r": t[1]})
+    a = st.tuples(NC.clean_network(maxN=14 if tier == "quick" else 40, minN=4, max_motifs=12 if tier == "quick" else 40), r, st.booleans()).map(
+        lambda t: {"net": t[0], "r": t[1], "names_as_tuple": t[2]})
+    b = st.tuples(free_network(tier), r, st.booleans()).map(lambda t: {"net": t[0], "r": t[1], "names_as_tuple": t[2]})
     return st.one_of(a, b, b)
 
 
 def build(case):
     import networkx as nx
     from gcmpy import NetworkNames as NN
+    if case.get("big"):
+        b = case["big"]
+        G = nx.Graph()
+        n = b["ring"]
+        for i in range(n):
+            G.add_edge(i, (i + 1) % n)
+            G.edges[i, (i + 1) % n][NN.TOPOLOGY] = "2-clique"
+        v = n
+        for t in range(b["triangles"]):
+            # triangles hang on ring vertices 0, 7, 14, ...: a second joint-degree class
+            a = (7 * t) % n
+            for x, y in ((a, v), (a, v + 1), (v, v + 1)):
+                G.add_edge(x, y)
+                G.edges[x, y][NN.TOPOLOGY] = "3-clique"
+            v += 2
+        for u in G:
+            k3 = sum(1 for w in G[u] if G.edges[u, w][NN.TOPOLOGY] == "3-clique") // 2
+            k2 = sum(1 for w in G[u] if G.edges[u, w][NN.TOPOLOGY] == "2-clique")
+            G.nodes[u][NN.JOINT_DEGREE] = (k2, k3)
+        return G, ["2-clique", "3-clique"]
     net = case["net"]
     if net.get("free"):
         G = nx.Graph()
@@ -105,11 +134,12 @@ def reference(G, names):
     return out
 
 
-def compare_matrix(got, want, what):
+def compare_matrix(got, want, what, n_terms=0):
     if set(got) != set(want):
         raise Violation(what + "-keys", f"keys {sorted(got)} != {sorted(want)}")
+    tol = 1e-12 + 2e-16 * n_terms  # an entry is a sum of up to n_terms floating-point increments
     for k, w in want.items():
-        if abs(got[k] - float(w)) > 1e-12:
+        if abs(got[k] - float(w)) > tol:
             raise Violation(what, f"entry {k}: extractor {got[k]!r}, definition {w} = {float(w)!r}")
 
 
@@ -118,7 +148,11 @@ def check(case):
     G, names = build(case)
     import copy
     snap = (copy.deepcopy(dict(G.nodes(data=True))), copy.deepcopy({frozenset(e[:2]): e[2] for e in G.edges(data=True)}))
-    ext = call("construct", JointExcessJointDegree, {TN.NETWORK: G, TN.EDGE_NAMES: list(names)})
+    # the name sequence handed to the extractor: equal to the edge attributes but separately created objects, as a
+    # list or (same content) a tuple
+    fresh_names = ["".join(list(n)) if isinstance(n, str) else n for n in names]
+    seqtype = tuple if (case.get("names_as_tuple") and not case.get("big")) else list
+    ext = call("construct", JointExcessJointDegree, {TN.NETWORK: G, TN.EDGE_NAMES: seqtype(fresh_names)})
     want = reference(G, names)
     T = len(names)
     first_keys = None
@@ -130,7 +164,7 @@ def check(case):
         if set(ejks) != set(names):
             raise Violation(tag + "-topologies", f"matrices for {sorted(ejks)}, names {names}")
         for name in names:
-            compare_matrix(ejks[name], want[name], tag)
+            compare_matrix(ejks[name], want[name], tag, n_terms=2 * G.number_of_edges())
             m = ejks[name]
             for k, v in m.items():
                 kk = k[T:] + k[:T]
@@ -147,7 +181,7 @@ def check(case):
             first_keys = keys
         elif keys != first_keys:
             raise Violation("repeat-call-excess-keys", f"excess_degree_keys changed between calls: {first_keys} -> {keys}")
-        if list(res.topology_names) != list(names):
+        if list(res.topology_names) != list(names):  # (tuple or list: same content)
             raise Violation(tag + "-names", f"topology_names {res.topology_names}")
     # row sums = excess distribution of that topology's edge ends
     for i, name in enumerate(names):
@@ -173,7 +207,12 @@ def check(case):
         for a, b in ((u, v), (v, u)):
             k = (G.degree(a) - 1, G.degree(b) - 1)
             wo[k] = wo.get(k, 0) + Fraction(1, 2 * E)
-    compare_matrix(ov, wo, "overall")
+    compare_matrix(ov, wo, "overall", n_terms=2 * G.number_of_edges())
+    if case.get("big"):
+        classes.add("large_network")
+        return {"nontrivial": True, "classes": sorted(classes)}
+    if case.get("names_as_tuple"):
+        classes.add("names_as_tuple")
     if case["net"].get("free"):
         classes.add("free_annotations")
         if case["net"].get("labels", "id") != "id" or case["net"].get("insert") == "by_edges":
